@@ -212,4 +212,401 @@ def firstLoopD14 (c : Config) (newVersions : List Mod) : Config :=
     if v.path = "" then acc
     else c.foldl (fun acc nr => if nr.2.path = v.path then (acc.filter (·.1 ≠ nr.1)) ++ [(nr.1, v)] else acc) acc) []
 
+/-! ### the build list `mvs.Downgrade` returns is the build list of the project file `get` writes -/
+
+/-- `buildList` without an upgrade function is `buildList` with the identity as upgrade function -/
+theorem explore_congr_up (rq : Reqs) (up1 up2 : Option (Mod → Option Mod)) (hw : ∀ m, workItem rq up1 m = workItem rq up2 m) :
+    ∀ fuel todo log err, explore rq up1 fuel todo log err = explore rq up2 fuel todo log err := by
+  intro fuel
+  induction fuel with
+  | zero => intro todo log err; cases todo <;> rfl
+  | succ f ih =>
+    intro todo log err
+    cases todo with
+    | nil => rfl
+    | cons m t =>
+      simp only [explore, hw m]
+      split
+      · exact ih _ _ _
+      · exact ih _ _ _
+
+def idUp : Mod → Option Mod := fun m => some m
+
+theorem buildList_eq_idUp (fuel : Nat) (rq : Reqs) (target : Mod) :
+    buildList fuel rq target = buildListWith fuel rq (some idUp) target := by
+  unfold buildList buildListWith
+  rw [explore_congr_up rq .none (some idUp) (fun m => by simp [workItem, idUp])]
+
+/-- a version that can stand in a requirement the downgrade writes: canonical or `"none"` -/
+def verOk (v : Ver) : Prop := v = .none ∨ ∃ s, v = .sv s
+
+theorem stepDown_weakOk (fuel : Nat) (rq : Reqs) (prev : Mod → Option Mod) (maxv : Sel)
+    (hprev : ∀ r p, prev r = some p → weakOk r → weakOk p)
+    (hmax : ∀ p v, maxv.lookup p = some v → ∃ s, v = .sv s) :
+    ∀ (n : Nat) (st st' : DState) (r r' : Mod), weakOk r →
+      stepDown fuel rq prev maxv n st r = .ok (st', some r') → weakOk r' := by
+  intro n
+  induction n with
+  | zero => intro st st' r r' _ h; simp [stepDown] at h
+  | succ n ih =>
+    intro st st' r r' hr h
+    simp only [stepDown] at h
+    split at h
+    · simp only [Except.ok.injEq, Prod.mk.injEq, Option.some.injEq] at h
+      rw [← h.2]; exact hr
+    · cases hp : prev r with
+      | none => simp [hp] at h
+      | some p =>
+        simp only [hp] at h
+        have hpw := hprev r p hp hr
+        generalize hp' : (if vmax ((maxv.lookup r.path).getD .root) r.ver ≠ (maxv.lookup r.path).getD .root ∧
+            vmax p.ver ((maxv.lookup r.path).getD .root) ≠ p.ver then (⟨p.path, (maxv.lookup r.path).getD .root⟩ : Mod) else p) = p' at h
+        have hp'w : weakOk p' := by
+          split at hp'
+          · rename_i hc
+            subst hp'
+            refine ⟨hpw.1, ?_⟩
+            cases hl : maxv.lookup r.path with
+            | none =>
+              exfalso
+              rw [hl] at hc
+              simp only [Option.getD_none] at hc
+              apply hc.1
+              rw [vmax_eq]
+              have : cmpVersion .root r.ver ≠ .lt := by cases r.ver <;> simp [cmpVersion]
+              simp [this]
+            | some v => exact Or.inr (hmax _ _ hl)
+          · subst hp'; exact hpw
+        split at h
+        · cases h
+        · split at h
+          · cases h
+          · exact ih _ _ _ _ hp'w h
+
+theorem downLoop_weakOk (fuel : Nat) (rq : Reqs) (prev : Mod → Option Mod) (maxv : Sel)
+    (hprev : ∀ r p, prev r = some p → weakOk r → weakOk p)
+    (hmax : ∀ p v, maxv.lookup p = some v → ∃ s, v = .sv s) :
+    ∀ (list : List Mod) (st : DState) (acc out : List Mod), (∀ m ∈ list, weakOk m) →
+      (∀ x ∈ acc, x = rootMod ∨ weakOk x) → downLoop fuel rq prev maxv list st acc = .ok out →
+      ∀ x ∈ out, x = rootMod ∨ weakOk x := by
+  intro list
+  induction list with
+  | nil => intro st acc out _ hacc h; simp only [downLoop, Except.ok.injEq] at h; subst h; exact hacc
+  | cons r rest ih =>
+    intro st acc out hl hacc h
+    simp only [downLoop] at h
+    split at h
+    · cases h
+    · rename_i st1 _
+      split at h
+      · cases h
+      · rename_i st2 r' hsd
+        apply ih st2 _ out (fun m hm => hl m (List.mem_cons_of_mem _ hm)) _ h
+        intro x hx
+        rcases List.mem_append.mp hx with h1 | h1
+        · exact hacc x h1
+        · rw [List.mem_singleton.mp h1]
+          exact Or.inr (stepDown_weakOk fuel rq prev maxv hprev hmax fuel st1 st2 r r' (hl r List.mem_cons_self) hsd)
+      · rename_i st2 hsd
+        exact ih st2 acc out (fun m hm => hl m (List.mem_cons_of_mem _ hm)) hacc h
+
+/-- the fixed `Reqs.Previous` keeps the path and answers `"none"` or a tagged (hence canonical) version -/
+theorem previous_weakOk (e : Env) (htags : ∀ t ∈ e.tags, okReq t) (r p : Mod) (h : previous e r = some p) (hr : weakOk r) :
+    weakOk p := by
+  unfold previous previousFrom at h
+  rw [if_neg hr.1] at h
+  cases hl : listVersions e r with
+  | none => simp [hl] at h
+  | some versions =>
+    simp only [hl, Option.some.injEq] at h
+    subst h
+    refine ⟨hr.1, ?_⟩
+    dsimp only
+    rcases foldl_pick_spec (fun sel v => v.ver.majorStr = r.ver.majorStr ∧ semverCompare v.ver r.ver = .lt ∧
+        semverCompare v.ver sel = .gt) versions .none with h1 | ⟨v, hv, h1⟩
+    · exact Or.inl h1
+    · rw [← h1]
+      exact Or.inr (htags v (listVersions_spec hl v hv).1).2
+
+
+theorem upSetting_override {e : Env} {roots list' : List Mod} (hwf : WellFormed e roots)
+    (hl : ∀ x ∈ list', x = rootMod ∨ weakOk x) :
+    UpSetting False e roots (override rootMod list' (dawnReqs e roots)) idUp where
+  env_ok := hwf.reqs_ok
+  roots_ok := hwf.roots_ok
+  other n hn := by simp [override, hn]
+  main := ⟨list', by simp [override], fun h => absurd h id, hl⟩
+  up_main := Or.inl rfl
+  up_ok n m _ _ hup hne := by simp only [idUp, Option.some.injEq] at hup; exact absurd hup.symm hne
+
+theorem drop_one_of_head {full : List Mod} (hhead : full.take 1 = [rootMod]) (hnd : (full.map (·.path)).Nodup) :
+    ∀ m ∈ full.drop 1, m ∈ full ∧ m.path ≠ "" := by
+  cases full with
+  | nil => simp at hhead
+  | cons x xs =>
+    simp only [List.take_succ_cons, List.take_zero, List.cons.injEq, and_true] at hhead
+    subst hhead
+    intro m hm
+    simp only [List.drop_succ_cons, List.drop_zero] at hm
+    refine ⟨List.mem_cons_of_mem _ hm, ?_⟩
+    simp only [List.map_cons, List.nodup_cons] at hnd
+    intro hp
+    exact hnd.1 (List.mem_map.mpr ⟨m, hm, by rw [hp]; rfl⟩)
+
+/-- the downgrade branch of `get`: the project file written from `ReqList(Downgrade(…))` resolves to exactly the list
+`mvs.Downgrade` returned -/
+theorem get_downgrade_consistent {e : Env} {c c' : Config} {tx : List Mod → Except Err (List Mod)} {fuel fuel' : Nat}
+    {version : Mod} {bld nv bl' : List Mod}
+    (hwf : WellFormed e (c.map (·.2))) (htags : ∀ t ∈ e.tags, okReq t) (hver : okReq version)
+    (hd : mvsDowngrade fuel (dawnReqs e (c.map (·.2))) (previous e) rootMod version = .ok bld)
+    (h : transformReqs e c tx = .ok c') (htx : tx (c.map (·.2)) = .ok nv)
+    (hreq : reqList fuel (dawnReqs e (c.map (·.2))) rootMod bld = .ok nv)
+    (hbl' : BuildList fuel' e c' = .ok bl') : bl' = bld := by
+  unfold mvsDowngrade at hd
+  split at hd
+  · cases hd
+  · rename_i full hfull
+    dsimp only at hd
+    have hf := buildList_facts hwf hfull
+    have hhead : full.take 1 = [rootMod] := by unfold buildList at hfull; exact buildListWith_head hfull
+    have hdrop := drop_one_of_head hhead hf.1
+    have hlistOk : ∀ m ∈ full.drop 1, okReq m := by
+      intro m hm
+      have := hdrop m hm
+      have hne : m ≠ rootMod := by rintro rfl; exact this.2 rfl
+      exact ureach_ok hwf (hf.2.2.1 m this.1 hne).1
+    have hndDrop : ((full.drop 1).map (·.path)).Nodup :=
+      (List.Sublist.map _ (List.drop_sublist 1 full)).nodup hf.1
+    -- the map `max`
+    have hbase : ∀ p v, (listMap (full.drop 1)).lookup p = some v → ∃ s, v = .sv s := by
+      intro p v hl
+      exact (hlistOk _ ((lookup_listMap_some _ hndDrop p v).mp hl)).2
+    have hset : ∀ p v, (setSel (listMap (full.drop 1)) version.path version.ver).lookup p = some v → ∃ s, v = .sv s := by
+      intro p v hl
+      rw [lookup_setSel] at hl
+      split at hl
+      · cases hl; exact hver.2
+      · exact hbase p v hl
+    have hmax : ∀ p v, (match (listMap (full.drop 1)).lookup version.path with
+        | some v => if vmax v version.ver ≠ version.ver then setSel (listMap (full.drop 1)) version.path version.ver else listMap (full.drop 1)
+        | .none => setSel (listMap (full.drop 1)) version.path version.ver).lookup p = some v → ∃ s, v = .sv s := by
+      intro p v hl
+      split at hl
+      · split at hl
+        · exact hset p v hl
+        · exact hbase p v hl
+      · exact hset p v hl
+    split at hd
+    · cases hd
+    · rename_i downgraded hdown
+      have hdg : ∀ x ∈ downgraded, x = rootMod ∨ weakOk x :=
+        downLoop_weakOk fuel _ (previous e) _ (fun r p hp hr => previous_weakOk e htags r p hp hr) hmax
+          (full.drop 1) ⟨[], [], []⟩ [rootMod] downgraded (fun m hm => weakOk_of_ok (hlistOk m hm))
+          (fun x hx => Or.inl (List.mem_singleton.mp hx)) hdown
+      split at hd
+      · cases hd
+      · rename_i actual hactual
+        rw [buildList_eq_idUp] at hactual hd
+        have S1 := upSetting_override hwf hdg
+        -- what is read back from `actual` is well-formed
+        have hdg2 : ∀ x ∈ (full.drop 1).filterMap (fun m => ((listMap actual).lookup m.path).map fun v => (⟨m.path, v⟩ : Mod)),
+            x = rootMod ∨ weakOk x := by
+          intro x hx
+          obtain ⟨m, hm, hmx⟩ := List.mem_filterMap.mp hx
+          cases hl : (listMap actual).lookup m.path with
+          | none => simp [hl] at hmx
+          | some v =>
+            simp only [hl, Option.map_some, Option.some.injEq] at hmx
+            subst hmx
+            have hin := (lookup_listMap_some actual (buildListWith_nodup hactual) m.path v).mp hl
+            have hex := (buildListWith_exact hactual m.path v).mp hin
+            rcases reach_up_weakOk S1 hex.2.1 with h1 | h1
+            · exfalso
+              simp only [rootMod, Mod.mk.injEq] at h1
+              exact (hdrop m hm).2 h1.1
+            · exact Or.inr h1
+        have S2 := upSetting_override hwf hdg2
+        exact (upgrade_general S2 hd h htx hreq hbl').1
+
+
+/-- `get` as a downgrade, from the top: the new project file resolves to the list `mvs.Downgrade` computed -/
+theorem get_downgrade {e : Env} {c c' : Config} {q : String} {fuel fuel' : Nat} {bl bl' : List Mod} {version : Mod}
+    (hwf : WellFormed e (c.map (·.2))) (htags : ∀ t ∈ e.tags, okReq t)
+    (hget : Get fuel e c q = .ok c') (hbl : BuildList fuel e c = .ok bl)
+    (hres : resolveVersionQuery e bl (parseVersionQuery q) = .ok version) (hver : okReq version)
+    (hdown : ∃ cur ∈ bl, cur.path = version.path ∧ semverCompare cur.ver version.ver = .gt)
+    (hbl' : BuildList fuel' e c' = .ok bl') :
+    ∃ bld, mvsDowngrade fuel (dawnReqs e (c.map (·.2))) (previous e) rootMod version = .ok bld ∧ bl' = bld := by
+  unfold Get at hget
+  obtain ⟨nv, _, _, htx, _⟩ := transformReqs_spec hget
+  obtain ⟨bl0, version0, hbl0, hres0, hcase⟩ := get_cases htx
+  unfold BuildList at hbl
+  rw [hbl] at hbl0; cases hbl0
+  rw [hres] at hres0; cases hres0
+  obtain ⟨cur, hcur, hcurp, hgt⟩ := hdown
+  have hnd := buildListWith_nodup hbl
+  rcases hcase with ⟨hfind, _⟩ | ⟨cur', hfind, hbr⟩
+  · exact absurd hcurp (find?_path_none hfind cur hcur)
+  · obtain ⟨hc', hc'p⟩ := find?_path_some hfind
+    have : cur' = cur := inj_of_nodup_map (·.path) hnd hc' hcur (by rw [hc'p, hcurp])
+    subst this
+    rcases hbr with ⟨hc, _⟩ | ⟨hc, _⟩ | ⟨_, bld, hd, hreq⟩
+    · rw [hgt] at hc; cases hc
+    · rw [hgt] at hc; cases hc
+    · exact ⟨bld, hd, get_downgrade_consistent hwf htags hver hd hget htx hreq hbl'⟩
+
+/-! ### when does an upgrade land exactly on the resolved version? -/
+
+theorem ureach_cons_cases {e : Env} {u : Mod} {roots : List Mod} {m : Mod} (h : UReach e (u :: roots) m) :
+    UReach e roots m ∨ UReach e [u] m := by
+  induction h with
+  | root m hm =>
+    rcases List.mem_cons.mp hm with rfl | h1
+    · exact Or.inr (UReach.root _ List.mem_cons_self)
+    · exact Or.inl (UReach.root _ h1)
+  | step a b s _ hs hb ih =>
+    rcases ih with ih | ih
+    · exact Or.inl (UReach.step a b s ih hs hb)
+    · exact Or.inr (UReach.step a b s ih hs hb)
+
+/-- where the exploration of `mvs.Upgrade` can get to: the old graph, the placeholder `p@none`, the upgraded module, and
+what the upgraded module requires -/
+theorem reach_up_cases {e : Env} {roots : List Mod} {u : Mod} (hwf : WellFormed e roots) (hu : okReq u) {m : Mod}
+    (h : Reach (override rootMod (upList roots u) (dawnReqs e roots)) (some (upFn u)) rootMod m) :
+    Reach (dawnReqs e roots) .none rootMod m ∨ m = ⟨u.path, .none⟩ ∨ UReach e [u] m := by
+  induction h with
+  | root => exact Or.inl Reach.root
+  | step n m hn hm ih =>
+    rcases (mem_edges_up _ _ n m).mp hm with ⟨hup, hne⟩ | ⟨hv, r, hr, hmr⟩
+    · -- the upgrade edge
+      simp only [upFn] at hup
+      split at hup
+      · rename_i hp
+        cases hup
+        right; right
+        have : (⟨n.path, u.ver⟩ : Mod) = u := by obtain ⟨up, uv⟩ := u; simp only at hp; subst hp; rfl
+        rw [this]; exact UReach.root _ List.mem_cons_self
+      · cases hup; exact absurd rfl hne
+    · by_cases hnr : n = rootMod
+      · subst hnr
+        simp only [override, ↓reduceIte, Option.some.injEq] at hr
+        subst hr
+        unfold upList at hmr
+        split at hmr
+        · left
+          apply Reach.step rootMod m Reach.root
+          rw [edges_plain]; simp [dawnReqs, rootMod, hmr]
+        · rcases List.mem_append.mp hmr with h1 | h1
+          · left
+            apply Reach.step rootMod m Reach.root
+            rw [edges_plain]; simp [dawnReqs, rootMod, h1]
+          · right; left; exact List.mem_singleton.mp h1
+      · simp only [override, hnr, ↓reduceIte] at hr
+        rcases ih with ih | ih | ih
+        · left
+          apply Reach.step n m ih
+          rw [edges_plain, if_pos hv, hr]; exact hmr
+        · rw [ih] at hv; exact absurd rfl hv
+        · right; right
+          have hok := ureach_ok (roots := [u]) ⟨fun x hx => by rw [List.mem_singleton.mp hx]; exact hu, hwf.reqs_ok⟩ ih
+          rw [dawnReqs_required_of_ok e roots hok] at hr
+          cases hs : e.summary n with
+          | none => simp [hs] at hr
+          | some s =>
+            simp only [hs, Option.map_some, Option.some.injEq] at hr
+            subst hr
+            exact UReach.step n m s ih hs hmr
+
+/-- C11, upgrading one project, exact form: if nothing the resolved version itself (transitively) requires is a newer
+version of the same project, the new build list has the project at exactly the resolved version -/
+theorem get_upgrade_exact {e : Env} {c c' : Config} {q : String} {fuel fuel' : Nat} {bl bl' : List Mod} {version : Mod}
+    {prev : Mod → Option Mod}
+    (hwf : WellFormed e (c.map (·.2)))
+    (hget : transformReqs e c (fun root => get fuel e prev root (parseVersionQuery q)) = .ok c')
+    (hbl : BuildList fuel e c = .ok bl)
+    (hres : resolveVersionQuery e bl (parseVersionQuery q) = .ok version) (hver : okReq version)
+    (hup : ∀ cur ∈ bl, cur.path = version.path → semverCompare cur.ver version.ver ≠ .gt)
+    (hself : ∀ w, UReach e [version] ⟨version.path, w⟩ → Ver.le w version.ver)
+    (hbl' : BuildList fuel' e c' = .ok bl') : version ∈ bl' := by
+  obtain ⟨⟨v', hv', hle⟩, _⟩ := get_upgrade hwf hget hbl hres hver hup hbl'
+  suffices h : Ver.le v' version.ver by
+    have : v' = version.ver := Ver.le_antisymm h hle
+    rw [this] at hv'; exact hv'
+  obtain ⟨nv, _, _, htx, _⟩ := transformReqs_spec hget
+  obtain ⟨bl0, version0, hbl0, hres0, hcase⟩ := get_cases htx
+  unfold BuildList at hbl
+  rw [hbl] at hbl0; cases hbl0
+  rw [hres] at hres0; cases hres0
+  have hf := buildList_facts hwf hbl
+  have hpne : version.path ≠ "" := hver.1
+  -- every module of the old graph with this path is at or below the resolved version
+  have hold : ∀ w, UReach e (c.map (·.2)) ⟨version.path, w⟩ → Ver.le w version.ver := by
+    intro w hw
+    obtain ⟨vb, hvb, hle'⟩ := hf.2.2.2 _ hw
+    have hne : (⟨version.path, vb⟩ : Mod) ≠ rootMod := by
+      intro h; simp only [rootMod, Mod.mk.injEq] at h; exact hpne h.1
+    have hcmp := hup _ hvb rfl
+    obtain ⟨s, hs⟩ := hver.2
+    have hvbok := ureach_ok hwf (hf.2.2.1 _ hvb hne).1
+    obtain ⟨sb, hsb⟩ := hvbok.2
+    simp only at hsb
+    apply Ver.le_trans hle'
+    rw [hsb, hs] at hcmp ⊢
+    simp only [Ver.le, cmpVersion, reduceCtorEq, ↓reduceIte, semverCompare] at hcmp ⊢
+    exact hcmp
+  rcases hcase with ⟨hfind, rfl⟩ | ⟨cur, hfind, hbr⟩
+  · -- add: the new roots are the old ones and the resolved version
+    obtain ⟨added, hperm, hadd, _⟩ := transformReqs_passthrough hget htx
+      (fun r hr => ⟨List.mem_cons_of_mem _ hr, (hwf.roots_ok r hr).1⟩)
+    have hroots' : ∀ m ∈ c'.map (·.2), m ∈ version :: c.map (·.2) := by
+      intro m hm
+      obtain ⟨x, hx, rfl⟩ := List.mem_map.mp hm
+      rcases List.mem_append.mp (hperm.mem_iff.mp hx) with h1 | h1
+      · exact List.mem_cons_of_mem _ (List.mem_map.mpr ⟨x, h1, rfl⟩)
+      · exact (hadd x h1).1
+    have hwf' : WellFormed e (c'.map (·.2)) := by
+      refine ⟨fun m hm => ?_, hwf.reqs_ok⟩
+      rcases List.mem_cons.mp (hroots' m hm) with rfl | h1
+      · exact hver
+      · exact hwf.roots_ok m h1
+    unfold BuildList at hbl'
+    have hf' := buildList_facts hwf' hbl'
+    have hne : (⟨version.path, v'⟩ : Mod) ≠ rootMod := by
+      intro h; simp only [rootMod, Mod.mk.injEq] at h; exact hpne h.1
+    have hr := (hf'.2.2.1 _ hv' hne).1
+    rcases ureach_cons_cases (ureach_mono hroots' hr) with h1 | h1
+    · exact hold v' h1
+    · exact hself v' h1
+  · obtain ⟨hcur, hcurp⟩ := find?_path_some hfind
+    rcases hbr with ⟨hc, rfl⟩ | ⟨hc, blu, hupg, hreq⟩ | ⟨hc, _⟩
+    · -- no-op: same roots, same build list
+      obtain ⟨added, hperm, hadd, _⟩ := transformReqs_passthrough hget htx
+        (fun r hr => ⟨hr, (hwf.roots_ok r hr).1⟩)
+      have hroots' : ∀ m ∈ c'.map (·.2), m ∈ c.map (·.2) := by
+        intro m hm
+        obtain ⟨x, hx, rfl⟩ := List.mem_map.mp hm
+        rcases List.mem_append.mp (hperm.mem_iff.mp hx) with h1 | h1
+        · exact List.mem_map.mpr ⟨x, h1, rfl⟩
+        · exact (hadd x h1).1
+      have hwf' : WellFormed e (c'.map (·.2)) := ⟨fun m hm => hwf.roots_ok m (hroots' m hm), hwf.reqs_ok⟩
+      unfold BuildList at hbl'
+      have hf' := buildList_facts hwf' hbl'
+      have hne : (⟨version.path, v'⟩ : Mod) ≠ rootMod := by
+        intro h; simp only [rootMod, Mod.mk.injEq] at h; exact hpne h.1
+      exact hold v' (ureach_mono hroots' (hf'.2.2.1 _ hv' hne).1)
+    · -- upgrade
+      rw [mvsUpgrade_eq] at hupg
+      have G := upSetting_get (u := version) hwf hver
+      obtain ⟨heq, _⟩ := upgrade_general G hupg hget htx hreq hbl'
+      rw [heq] at hv'
+      have hex := (buildListWith_exact hupg version.path v').mp hv'
+      rcases reach_up_cases hwf hver hex.2.1 with h1 | h1 | h1
+      · rcases (reach_dawn_iff hwf _).mp h1 with h2 | h2
+        · simp only [rootMod, Mod.mk.injEq] at h2; exact absurd h2.1 hpne
+        · exact hold v' h2
+      · simp only [Mod.mk.injEq, true_and] at h1
+        rw [h1]; exact Ver.none_le _
+      · exact hself v' h1
+    · exact absurd hc (hup cur hcur hcurp)
+
 end Dawn.Mvs
